@@ -6,7 +6,10 @@ chains, stringly-typed), the multiset of violations must be the same
   (b) for two interpreter HASH SEEDS (sub-processes with PYTHONHASHSEED=1 / 2),
   (c) on a SECOND call of the same Orchestrator object (all rules), and a used object must answer a later call on a
       subset of the files exactly like a fresh one (history independence; fixed defect C08-dry-finalize-keeps-evidence),
-and a run must leave the project directory untouched and no temporary files behind (both DRY storage modes)."""
+Half of the projects are MULTI-LANGUAGE (.py / .ts / .rs) under a configuration with per-language override sections
+(srp, magic_numbers, nesting), so that a reader that rewrites the shared configuration while serving one language
+changes the verdicts of the other languages' files depending on order / history.
+A run must also leave the project directory untouched and no temporary files behind (both DRY storage modes)."""
 from pyvc.api import custom
 
 _BLOCK = ("    total = 0\n    for item in items:\n        if item.value > threshold:\n            total += item.value * factor\n"
@@ -16,6 +19,23 @@ _CONST_NAMES = ["DEFAULT_TIMEOUT", "DEFAULT_TIMEOUT_S", "DEFAUL_TIMEOUT", "MAX_R
 _CONFIG = {"dry": {"enabled": True, "min_duplicate_lines": 3, "detect_duplicate_constants": True, "min_constant_occurrences": 2,
                    "storage_mode": "memory"},
            "stringly_typed": {"enabled": True}}
+
+
+# ---- multi-language projects with per-language override sections (every linter that documents language sections)
+_ML_CONFIG = {
+    "srp": {"max_methods": 5, "max_loc": 200, "python": {"max_methods": 2}},
+    "magic_numbers": {"allowed_numbers": [0, 1], "max_small_integer": 10, "python": {"allowed_numbers": [0, 1, 4242]},
+                      "typescript": {"max_small_integer": 20}},
+    "nesting": {"max_nesting_depth": 4, "python": {"max_nesting_depth": 2}, "typescript": {"max_nesting_depth": 3}},
+    "dry": {"enabled": False},
+}
+_ML_PY = ("class Store:\n    def a(self):\n        return 4242\n\n    def b(self):\n        return [i for i in range(15)]\n\n"
+          "    def c(self, x, y):\n        if x:\n            if y:\n                if x > y:\n                    return 77\n        return 0\n")
+_ML_TS = ("export class Widget {\n  a(): number { return 4242; }\n  b(): number[] { return Array(15).fill(0); }\n"
+          "  c(x: number, y: number): number {\n    if (x) {\n      if (y) {\n        if (x > y) {\n          if (x > 2 * y) {\n"
+          "            return 77;\n          }\n        }\n      }\n    }\n    return 0;\n  }\n  d(): number { return 15; }\n}\n")
+_ML_RS = ("pub fn work(x: i32, y: i32) -> i32 {\n    if x > 0 {\n        if y > 0 {\n            if x > y {\n                return 4242;\n"
+          "            }\n        }\n    }\n    15\n}\n")
 
 
 def _file_text(rng, i):
@@ -67,6 +87,7 @@ print(json.dumps(sorted(c.items())))
 
 @custom("c08-order-history-effects-bounded", props=["C08"])
 def order_history_effects_bounded(ctx):
+    import copy
     import gc
     import itertools
     import json
@@ -98,7 +119,7 @@ def order_history_effects_bounded(ctx):
             pass
         from src.orchestrator.core import Orchestrator
         from src.linter_config.ignore import clear_ignore_parser_cache
-        dry_seen = const_seen = 0
+        dry_seen = const_seen = ml_seen = 0
         for i in range(n):
             root = os.path.join(base, f"p{i}")
             os.mkdir(root)
@@ -107,6 +128,9 @@ def order_history_effects_bounded(ctx):
             if i == 0:  # a fuzzy-match chain whose hub is seen first / in the middle / last depending on the order
                 texts = {"alpha.py": '"""alpha"""\n\nDEFAULT_TIMEOUT = 30\n', "beta.py": '"""beta"""\n\nDEFAULT_TIMEOUT_S = 30\n',
                          "gamma.py": '"""gamma"""\n\nDEFAUL_TIMEOUT = 30\n'}
+            multi_language = (i % 2 == 1)
+            if multi_language:  # files of several languages under a config with per-language override sections
+                texts = {"models.py": _ML_PY, "widget.ts": _ML_TS, "core.rs": _ML_RS, "extra.py": _ML_PY.replace("Store", "Extra")}
             for fn, tx in texts.items():
                 pathlib.Path(root, fn).write_text(tx, encoding="utf-8")
             files = sorted(texts)
@@ -114,14 +138,15 @@ def order_history_effects_bounded(ctx):
             os.mkdir(private_tmp)
             tempfile.tempdir = private_tmp
             ref = None
-            for mode in ("memory", "tempfile"):
-                cfg = json.loads(json.dumps(_CONFIG))
+            for mode in (("memory", "tempfile") if not multi_language else ("memory",)):
+                cfg = json.loads(json.dumps(_ML_CONFIG if multi_language else _CONFIG))
                 cfg["dry"]["storage_mode"] = mode
+                ml_seen += multi_language
                 perms = list(itertools.permutations(files)) if mode == "memory" else [tuple(files), tuple(reversed(files))]
                 for perm in perms:
                     clear_ignore_parser_cache()
                     before = _snapshot(root)
-                    o = Orchestrator(project_root=pathlib.Path(root), config=cfg)
+                    o = Orchestrator(project_root=pathlib.Path(root), config=copy.deepcopy(cfg))
                     got = _key(o.lint_files([pathlib.Path(root) / f for f in perm]), root)
                     cases += 1
                     dry_seen += any(k[0] == "dry.duplicate-code" for k in got)
@@ -141,7 +166,7 @@ def order_history_effects_bounded(ctx):
                                     "second_only": sorted(map(str, (again - got).keys()))})
                     subset = [pathlib.Path(root) / f for f in perm[:-1]]
                     used = _key(o.lint_files(subset), root)
-                    fresh = _key(Orchestrator(project_root=pathlib.Path(root), config=cfg).lint_files(subset), root)
+                    fresh = _key(Orchestrator(project_root=pathlib.Path(root), config=copy.deepcopy(cfg)).lint_files(subset), root)
                     cases += 1
                     if used != fresh:
                         return bad("an Orchestrator that was used before answers differently from a fresh one (history dependence)",
@@ -161,7 +186,8 @@ def order_history_effects_bounded(ctx):
             outs = []
             for hs in ("1", "2"):
                 env = dict(os.environ, PYTHONHASHSEED=hs, TMPDIR=private_tmp)
-                p = subprocess.run([sys.executable, "-c", _SUBPROCESS, repo, root, json.dumps(_CONFIG), json.dumps(files)],
+                p = subprocess.run([sys.executable, "-c", _SUBPROCESS, repo, root,
+                                    json.dumps(_ML_CONFIG if multi_language else _CONFIG), json.dumps(files)],
                                    capture_output=True, text=True, timeout=120, env=env)
                 if p.returncode != 0:
                     raise RuntimeError("sub-process failed: " + p.stderr[-300:])
@@ -171,7 +197,7 @@ def order_history_effects_bounded(ctx):
                 return bad("the violations depend on PYTHONHASHSEED", {"files": files, "seed1": outs[0][:300], "seed2": outs[1][:300]})
             tempfile.tempdir = old_tmp
             shutil.rmtree(root, ignore_errors=True)
-        if dry_seen == 0 or const_seen == 0:
+        if dry_seen == 0 or const_seen == 0 or ml_seen == 0:
             return [dict(name=name, kind="bounded", verdict="unknown", carries=True, tool="native runs", cases=cases,
                          note=f"generator too weak: runs with duplicate-code findings {dry_seen}, with duplicate-constant findings {const_seen}")]
     except BaseException as e:  # noqa
